@@ -426,7 +426,15 @@ func c04Server(c *c04Case, seen *c04Seen) http.Handler {
 			for k, v := range seen.bound {
 				if f, ok := v.(runtime.File); ok {
 					b, _ := io.ReadAll(f.Data)
-					seen.bound[k] = "file:" + f.Header.Filename + ":" + string(b)
+					// the name that arrives is the base name of the one sent; reported under the case's canonical
+					// name f<i>.bin when it is (the model knows that one), as it came otherwise
+					got := f.Header.Filename
+					for i, fk := range c.filenames {
+						if fk == k && got == filepath.Base(c04SentName(i, k, string(b))) {
+							got = "f" + proto.N(i) + ".bin"
+						}
+					}
+					seen.bound[k] = "file:" + got + ":" + string(b)
 				}
 			}
 			return c04Responder{c}, nil
@@ -597,6 +605,13 @@ type c04TypedFile struct{ c04PlainFile }
 
 func (f *c04TypedFile) ContentType() string { return "application/x-c04" }
 
+// c04SentName: the file's own name is the caller's business (a reader without a name, a path, odd characters):
+// whatever it is, the part is a file, its base name and its content arrive.
+func c04SentName(i int, key, content string) string {
+	name := "f" + proto.N(i) + ".bin"
+	return []string{name, "", ".", "dir/sub/" + name, "a b;c=d.txt", "q\"uote.bin", name}[(len(content)+i+len(key))%7]
+}
+
 // c04MakeFile: one of the implementations of runtime.NamedReadCloser a caller may hand over
 func c04MakeFile(kind int, name, content string, tmp *[]string) runtime.NamedReadCloser {
 	switch kind {
@@ -746,7 +761,13 @@ func (w c04Writer) WriteToRequest(req runtime.ClientRequest, _ strfmt.Registry) 
 		},
 		func() error {
 			for i, k := range c.filenames {
-				if err := req.SetFileParam(k, c04MakeFile(w.k.file, "f"+proto.N(i)+".bin", c.files[i], w.tmp)); err != nil {
+				// the file's own name is the caller's business (a reader without a name, a path, odd characters):
+				// whatever it is, the part is a file and its content arrives
+				name := "f" + proto.N(i) + ".bin"
+				if w.k.file != 3 { // (a real *os.File needs a name the file system takes)
+					name = c04SentName(i, k, c.files[i])
+				}
+				if err := req.SetFileParam(k, c04MakeFile(w.k.file, name, c.files[i], w.tmp)); err != nil {
 					return err
 				}
 			}
